@@ -2,10 +2,10 @@ SPECIFICATION Spec
 CONSTANTS
   Hays <- MCHays
   Needles <- MCNeedles
-  AB_H = 9
+  AB_H = 8
   AB_N = 5
-  U_H = 5
-  RAW_H = 5
+  U_H = 4
+  RAW_H = 4
   RAW_N = 3
   U_N = 3
 INVARIANTS TypeOK ReadsInBounds Refines ResultInside
